@@ -144,6 +144,8 @@ def signature(recipe: dict, plan: dict | None, rec: dict, viol: dict) -> dict:
         sig["dtypes"] = "+".join(viol["dtypes"])
     if viol["class"] in ("no-refusal", "wrote-before-refusing"):
         sig["uninit_where"] = "+".join(sorted({"main" if u["where"] == "main" else "subgraph" for u in recipe.get("uninit", [])}))
+    if viol.get("meta_lost_only"):
+        sig["meta_lost_only"] = True
     if "dtypes" in viol and viol["dtypes"] and set(viol["dtypes"]) <= {"INT2", "UINT2"}:
         sig["only_2bit"] = True
     if sig["fault"] == "fsize" and viol["class"] == "success-but-bad-roundtrip":
